@@ -78,4 +78,53 @@ theorem rollback_restores (H : Bytes → Bytes) (hlen : ∀ x, (H x).length = 32
     simp only [r, rollback]
     exact get_apply_dels_mem _ _ _ hk
 
+/-- the same for `RollbackTrie(NewHashNode(hash t0, weight t0))`: either the committed root already has the
+    checkpoint's hash (nothing is touched), or the checkpoint reference is installed and exactly the created keys go -/
+theorem rollbackTrie_restores (H : Bytes → Bytes) (hlen : ∀ x, (H x).length = 32) {S : PT → Prop} (hcl : SubClosed S)
+    (hinj : HashInj H S) (lvl : Int) (t : WT) (t0 t1 : PT) (hdb : t.hasDb = true)
+    (hcp : StoredAll H t.store t0) (hw0 : 0 < t0.weight)
+    (h1 : RepS H t.store t.root t1) (hp : Proper t.root) (hd : t.root.dirty = true) (hS0 : S t0) (hS1 : S t1) :
+    let c := commit H t lvl
+    let c' : WT := { c.1 with store := c.1.store.apply c.2 }
+    let r := (rollbackTrie H c' (.hashRef (PT.hash H t0) t0.weight)).1
+    StoredAll H r.store t0 ∧
+      ((c'.root.hashField H = PT.hash H t0 ∧ r = c') ∨
+       (r.root = .hashRef (PT.hash H t0) t0.weight ∧ (∀ k ∈ c.1.created, r.store.get k = none) ∧
+         r.created = [] ∧ r.tempDeleted = [] ∧ r.pending = [] ∧ r.deleted = [])) := by
+  intro c c' r
+  obtain ⟨_, _, _, _, _, hst, hmono⟩ := rep_commit hlen hcl hinj lvl t h1 hp hS1
+  have hs1 : StoredAll H c'.store t0 := by
+    have := hmono t0 hS0 hcp
+    simpa [c', c, hst] using this
+  have htoE : ((WN.hashRef (PT.hash H t0) t0.weight).isNil || decide ((WN.hashRef (PT.hash H t0) t0.weight).weight = 0)) = false := by
+    have : t0.weight ≠ 0 := by omega
+    simp [WN.isNil, WN.weight, this]
+  by_cases heq : (WN.hashRef (PT.hash H t0) t0.weight).hashField H = c'.root.hashField H
+  · have hr : r = c' := by
+      simp only [r, rollbackTrie, htoE, heq, Bool.not_false, Bool.true_and, decide_true, if_true]
+    rw [hr]
+    exact ⟨hs1, .inl ⟨heq.symm, rfl⟩⟩
+  · have hstore : r.store = c'.store.apply (c'.created.map StoreOp.del) := by
+      simp only [r, rollbackTrie, htoE, heq, Bool.not_false, Bool.true_and, decide_false, Bool.false_eq_true, if_false]
+    have hroot : r.root = .hashRef (PT.hash H t0) t0.weight := by
+      simp only [r, rollbackTrie, htoE, heq, Bool.not_false, Bool.true_and, decide_false, Bool.false_eq_true, if_false]
+    have hq : r.created = [] ∧ r.tempDeleted = [] ∧ r.pending = [] ∧ r.deleted = [] := by
+      simp only [r, rollbackTrie, htoE, heq, Bool.not_false, Bool.true_and, decide_false, Bool.false_eq_true, if_false,
+        and_self]
+    refine ⟨?_, .inr ⟨hroot, ?_, hq⟩⟩
+    · rw [hstore]
+      refine StoredAll.of_sub ?_ hs1
+      intro x hx hn hg
+      have hnot : PT.hash H x ∉ c.1.created := by
+        intro hm
+        have := commit_created_fresh H t lvl _ hdb hm hd
+        rw [hcp.sub_get hx hn] at this
+        cases this
+      show (c'.store.apply (c.1.created.map StoreOp.del)).get _ = _
+      rw [get_apply_dels _ _ _ hnot]
+      exact hg
+    · intro k hk
+      rw [hstore]
+      exact get_apply_dels_mem _ _ _ hk
+
 end Verif.Wmpt
